@@ -768,6 +768,15 @@ public:
                                 right.term_of_var(p.first), gen_map))
           return false;
       }
+      // A variable that only appears in right is unconstrained in
+      // left: it is mapped to a fresh (unconstrained) term of left.
+      for (auto p : right._var_map) {
+        if (left._var_map.find(p.first) == left._var_map.end()) {
+          if (!left._ttbl.map_leq(right._ttbl, left.term_of_var(p.first),
+                                  right.term_of_var(p.first), gen_map))
+            return false;
+        }
+      }
       // We now have a mapping of reachable y-terms to x-terms.
       // Create copies of left._impl and right._impl with a common
       // variable set.
